@@ -281,6 +281,29 @@ func init() {
 			c03stats.Outcome("two-evidences-ok")
 		}, nil
 	}
+	// "every supported signing key": RSA moduli of other sizes, also with a bit length that is not a multiple of 8
+	Scenarios["c03.rsa-key-sizes"] = func() (choice.Scenario, func() any) {
+		files := []string{"rsa2049-1", "rsa2052-1", "rsa3072-1"}
+		keys := map[string]*fixtures.Key{}
+		for _, alg := range []string{"PS256", "PS384", "PS512"} {
+			for _, f := range files {
+				keys[alg+f] = fixtures.GetFile(alg, f)
+			}
+		}
+		return func(c *choice.Ctx) {
+			algName := []string{"PS256", "PS384", "PS512"}[c.Choose("alg", 3)]
+			f := files[c.Choose("modulus", len(files))]
+			kind := c.Choose("profile", 2)
+			validating := c.Choose("entry", 2) == 0
+			a := genValidOpt(&choice.Ctx{}, kind, false, true)
+			x, err := buildBySetters(a)
+			if err != nil {
+				return
+			}
+			c03stats.StateStr(fmt.Sprint("rsa", algName, f, kind, validating))
+			c03Eval(c, c03stats, a, x, kind, algName, keys[algName+f], validating, 0)
+		}, nil
+	}
 	// long component lists through sign -> decode -> verify (what the encoder emits the decoder must take back)
 	Scenarios["c03.many-components"] = func() (choice.Scenario, func() any) {
 		return func(c *choice.Ctx) {
@@ -311,6 +334,7 @@ func init() {
 		}
 		exploreChoiceOpts(r, "c03.two-evidences", 2, dl, 1)
 		exploreChoice(r, "c03.many-components", -1, dl)
+		exploreChoice(r, "c03.rsa-key-sizes", -1, dl)
 		for kind := 0; kind < 3; kind++ {
 			exploreChoice(r, "c03."+kindNames[kind], b, dl)
 		}
